@@ -66,17 +66,25 @@ def ctr_factory_contract(name, route, cl=None):
         return Contract(Q, params={'factory': 'module:Crypto.Cipher.' + name, 'kwargs': '|'.join(alts)}, requires=[keyok],
                         raises={'TypeError': ('iff', "len(kwargs['counter']) < 5")}, ensures={'unreachable': 'False'}, modifies=['kwargs'],
                         opaque=['spec.modes.key_len_ok'])
+    ctr = "kwargs['counter']"
+    if route == 'counter_faults':
+        # counter= with a missing key / an unknown parameter: refused before the counter object is looked at (any counter_len)
+        cd = 'dict(counter_len:int,prefix:bytes,suffix:bytes,initial_value:int,little_endian:bool)'
+        shapes = '|'.join(['dict(counter:%s)' % cd, 'dict(counter:%s,key:bytes,bogus:int)' % cd, 'dict(counter:%s,bogus:int)' % cd])
+        return Contract(Q, params={'factory': 'module:Crypto.Cipher.' + name, 'kwargs': shapes}, requires=["not %s or %s" % (has_key, keyok)],
+                        raises={'TypeError': ('iff', "'key' not in kwargs or 'bogus' in kwargs")}, ensures={'unreachable': 'False'},
+                        modifies=['kwargs'], opaque=['spec.modes.key_len_ok'])
     # route == 'counter': a Crypto.Util.Counter object (the dict Counter.new returns) with counter_len == cl
     cd = 'dict(counter_len:const:%d,prefix:bytes,suffix:bytes,initial_value:int,little_endian:bool)' % cl
-    shapes = cf.dict_shapes([('counter', [cd])], [('key', ['bytes']), ('bogus', ['int'])])
-    ctr = "kwargs['counter']"
+    shapes = cf.dict_shapes([('counter', [cd]), ('key', ['bytes'])], [])
     total = "(len(%s['prefix']) + %d + len(%s['suffix']))" % (ctr, cl, ctr)
     tfault = "(not %s or 'bogus' in kwargs)" % has_key
     vfault = '(%s and (not %s or %s != %d or %d == 0))' % (has_key, keyok, total, bs, cl)
     ensures = dict(common)
     ensures.update({
         'accepted': 'old(not %s and not %s)' % (tfault, vfault),
-        'icb': "%s.g_iv == old(spec.modes.ctr_block(%s['prefix'], %s['initial_value'], %d, %s['little_endian'], %s['suffix']))" % (P, ctr, ctr, cl, ctr, ctr),
+        # (digit-by-digit form of spec.modes.ctr_block; equal to it by the lemma units ctr.digits.*)
+        'icb': "%s.g_iv == old(spec.modes.ctr_block_digits(%s['prefix'], %s['initial_value'], %d, %s['little_endian'], %s['suffix']))" % (P, ctr, ctr, cl, ctr, ctr),
         'layout': "%s.g_prefix_len == old(len(%s['prefix'])) and %s.g_counter_len == %d and %s.g_le == old(%s['little_endian'])" % (P, ctr, P, cl, P, ctr),
         'nonce_attr': "hasattr(result, 'nonce') == old(len(%s['suffix']) == 0) and (hasattr(result, 'nonce') ==> result.nonce == old(%s['prefix']))" % (ctr, ctr),
         # (the caller's counter object is outside `modifies`: any write to it is a frame violation)
@@ -85,23 +93,19 @@ def ctr_factory_contract(name, route, cl=None):
                     # domain: what Counter.new returns (its contract below): 0 <= initial_value < 256**counter_len
                     requires=["0 <= %s['initial_value'] and %s['initial_value'] < %d" % (ctr, ctr, 256 ** cl)],
                     raises={'TypeError': ('only_if', tfault), 'ValueError': ('only_if', vfault)}, ensures=ensures, modifies=['kwargs'],
-                    lemmas={'exit': counter_lemmas(ctr, cl)},
+                    options={'max_inline_depth': 40},
                     opaque=['spec.modes.key_len_ok'])
 
 
-def counter_lemmas(ctr, cl):
-    """stepwise proof (DESIGN 2.6) of the byte assembly loop: the code shifts right by 8 bits per byte, the spec divides by 256**k.
-    Per byte k: one ground instance of (x // 256**k) // 256 == x // 256**(k+1), then "the k-th least significant word is byte k of the
-    value" (words[] is little endian before the optional reverse), finally the joined string; each proved on its own, in order"""
-    iv = "old(%s['initial_value'])" % ctr
-    out = {}
-    for k in range(cl):
-        if k >= 1:
-            out['div%02d' % k] = '(%s // %d) // 256 == %s // %d' % (iv, 256 ** (k - 1), iv, 256 ** k) if k > 1 else 'True'
-        out['byte%02d' % k] = '(words[%d] if little_endian else words[%d]) == bytes([(%s // %d) %% 256])' % (k, cl - 1 - k, iv, 256 ** k)
-    if cl:
-        out['joined'] = "b''.join(words) == (i2le(%s, %d) if little_endian else i2osp(%s, %d))" % (iv, cl, iv, cl)
-    return out
+def digits_lemma_contract(n):
+    """spec-level lemma, per length n: the digit-by-digit encodings equal I2OSP / I2LE.  Stepwise (DESIGN 2.6): one ground
+    instance of (x // 256**(k-1)) // 256 == x // 256**k per digit, each proved on its own and then available"""
+    lem = dict(('div%02d' % k, '(value // %d) // 256 == value // %d' % (256 ** (k - 1), 256 ** k)) for k in range(2, max(n, 2)))
+    return Contract('spec.modes.lemma_digits', params={'prefix': 'bytes', 'value': 'int', 'n': ('const', n), 'little': 'bool', 'suffix': 'bytes'},
+                    requires=['0 <= value and value < %d' % (256 ** n)], raises={},
+                    ensures={'ctr_block': 'result == spec.modes.ctr_block(prefix, value, %d, little, suffix)' % n,
+                             'length': 'len(result) == len(prefix) + %d + len(suffix)' % n},
+                    lemmas={'exit': lem}, modifies=[], options={'max_inline_depth': 40})
 
 
 def counter_new_contract(nbits=None):
@@ -128,6 +132,11 @@ def registry(variant='rw', name='AES', route='nonce', cl=None, nbits=None):
         from .base import base_registry
         reg = base_registry()
         reg.add(counter_new_contract(nbits))
+        return reg
+    if variant == 'digits':
+        from .base import base_registry
+        reg = base_registry()
+        reg.add(digits_lemma_contract(cl))
         return reg
     reg = mc.registry('ctr', 'factory0')
     reg.add(mc.init_contract('ctr', for_call=True))
